@@ -11,6 +11,7 @@
             for strdup/strndup the hex of the new block
 -/
 import IgrisModel.C08.Model
+import IgrisModel.C08.Fast
 open Igris.Proto Igris.C08
 
 structure Buf where
@@ -73,12 +74,12 @@ def parseData? (hx : String) : Option (Array Byte) :=
     | _ => none
   else (parseBytes? hx).map (·.toArray)
 
-def parseBufBig? (idx : Nat) (tok : String) : Option Buf := do
+def parseBufBig? (spacing : Nat) (idx : Nat) (tok : String) : Option Buf := do
   match (tok.drop 2).toString.splitOn ":" with
   | [al, hx] =>
       let a ← al.toNat?
       let bs ← parseData? hx
-      pure { addr := BIG * (idx + 1) + a, data := bs }
+      pure { addr := spacing * (idx + 1) + a, data := bs }
   | _ => none
 
 def fnvStep (h : UInt64) (b : Byte) : UInt64 := (h ^^^ b.toNat.toUInt64) * 0x100000001b3
@@ -254,11 +255,15 @@ def runOp (fn : String) (bufs : Array Buf) (args : List Arg) : String := runOpG 
   definition needs does not exist.  All other `L:` ops (the readers, strtok_r,
   strlwr/strupr with a handful of letters) run the model itself. -/
 
+/-- spacing of the buffers of the long WRITER ops (round 3b) and the address of their malloc block -/
+def FBIG : Nat := 524288
+
 def decodePtr (bufs : Array Buf) (a : Nat) : Option (Nat × Nat) := do
-  let i := a / BIG - 1
-  if a < BIG then none else
-  let b ← bufs[i]?
-  if a < b.addr then none else pure (i, a - b.addr)
+  -- the buffers are in increasing address order: the last one that starts at or below `a`
+  let k := (bufs.filter fun b => b.addr ≤ a).size
+  if k = 0 then none else
+  let b ← bufs[k - 1]?
+  pure (k - 1, a - b.addr)
 
 def sliceA (b : Array Byte) (off n : Nat) : Option (Array Byte) :=
   if off + n ≤ b.size then some (b.extract off (off + n)) else none
@@ -346,11 +351,88 @@ def specLong (fn : String) (bufs : Array Buf) (args : List Arg) : Option String 
       pure (hashedArr (data.push 0) ++ dump datas)
   | _, _ => none
 
+/-! ### round 3b: the long WRITERS run the LITERAL model in its linear-time form (Fast.lean: the definitions of
+  Model.lean over an array of cells; Props.lean `*_linear_form`: they compute exactly what the model computes on
+  the memory the array stands for).  Buffers are `spacing` apart here (a multiple of 2^19 that exceeds the longest
+  buffer, chosen per op in `opLine`), the malloc block of strdup/strndup lies behind the last buffer's slot;
+  `specLong` above (the right-hand sides of the specification theorems on arrays) is kept as a cross-check: when it
+  disagrees with the model the line gets the suffix ` !spec` and so differs from the implementation's. -/
+
+
+def mkCells (spacing : Nat) (bufs : Array Buf) : AMem := Id.run do
+  let mut c : AMem := Array.replicate (spacing * (bufs.size + 1)) none
+  for b in bufs do
+    for i in [0:b.data.size] do
+      c := c.setIfInBounds (b.addr + i) (some b.data[i]!)
+  return c
+
+def hashCells (c : AMem) (p n : Nat) : Option UInt64 := Id.run do
+  let mut h := FNV0
+  for i in [0:n] do
+    match c.getD (p + i) none with
+    | some b => h := fnvStep h b
+    | none => return none
+  return some h
+
+def dumpCells (c : AMem) (bufs : Array Buf) : Option String :=
+  bufs.foldl (fun acc b => do
+    let s ← acc
+    let h ← hashCells c b.addr b.data.size
+    pure (s ++ " " ++ toString b.data.size ++ ":" ++ hex16 h)) (some "")
+
+/-- the mapped cells from `p` on (the block `mallocArr` mapped) -/
+def blockOf (c : AMem) (p : Nat) : Array Byte := Id.run do
+  let mut out : Array Byte := #[]
+  let mut i := p
+  while true do
+    match c.getD i none with
+    | some b => out := out.push b; i := i + 1
+    | none => break
+  return out
+
+def runFast (spacing : Nat) (fn : String) (bufs : Array Buf) (args : List Arg) : Option String :=
+  let c := mkCells spacing bufs
+  let FBLK := spacing * (bufs.size + 1)
+  let base : Nat := match args with
+    | Arg.ptr (some p) :: _ => p
+    | _ => (bufs[0]?.map (·.addr)).getD 0
+  let wp (r : Option (AMem × Nat)) : Option (AMem × String) := r.map fun (c, p) => (c, showPtr base (some p))
+  let dup (r : Option (AMem × Option Nat)) : Option (AMem × String) := r.map fun (c, r) =>
+    match r with
+    | none => (c, "N")
+    | some p => (c, hashedArr (blockOf c p))
+  let res : Option (Option (AMem × String)) :=
+    match fn, args with
+    | "memcpy", [.ptr (some d), .ptr (some s), .int n] => some (wp (memcpyA c d s n.toNat))
+    | "memmove", [.ptr (some d), .ptr (some s), .int n] => some (wp (memmoveA c d s n.toNat))
+    | "memset", [.ptr (some d), .int x, .int n] => some (wp (memsetA c d x n.toNat))
+    | "strcpy", [.ptr (some d), .ptr (some s)] => some (wp (strcpyA c d s LFUEL))
+    | "strncpy", [.ptr (some d), .ptr (some s), .int n] => some (wp (strncpyA c d s n.toNat))
+    | "strlcpy", [.ptr (some d), .ptr (some s), .int n] =>
+        some ((strlcpyA c d s n.toNat LFUEL).map fun (c, k) => (c, toString k))
+    | "strcat", [.ptr (some d), .ptr (some s)] => some (wp (strcatA c d s LFUEL))
+    | "strncat", [.ptr (some d), .ptr (some s), .int n] => some (wp (strncatA c d s n.toNat LFUEL))
+    | "strdup", [.ptr (some s), .int fail] => some (dup (strdupA (mallocArr (fail ≠ 0) FBLK) c s LFUEL))
+    | "strndup", [.ptr (some s), .int n, .int fail] => some (dup (strndupA (mallocArr (fail ≠ 0) FBLK) c s n.toNat))
+    | _, _ => none
+  match res with
+  | none => none
+  | some none => some "fault"
+  | some (some (c, ret)) =>
+    match dumpCells c bufs with
+    | none => some "fault"
+    | some d => some (ret ++ d)
+
 def longWriters : List String :=
   ["memcpy", "memmove", "memset", "strcpy", "strncpy", "strlcpy", "strcat", "strncat", "strdup", "strndup"]
 
-def runOpLong (fn : String) (bufs : Array Buf) (args : List Arg) : String :=
-  if longWriters.contains fn then (specLong fn bufs args).getD "fault"
+def runOpLong (spacing : Nat) (fn : String) (bufs : Array Buf) (args : List Arg) : String :=
+  if longWriters.contains fn then
+    let r := (runFast spacing fn bufs args).getD "bad-op"
+    -- cross-check with the right-hand side of the specification theorems
+    if bufs.any (fun b => b.data.size > 400000) then r else
+    let sp := (specLong fn bufs args).getD "fault"
+    if sp = r then r else r ++ " !spec"
   else runOpG true fn bufs args
 
 /-! ### ctype ops (round 3) -/
@@ -381,18 +463,24 @@ def opLine (ws : List String) : Option String :=
       let fn := if big then (fn.drop 2).toString else fn
       let btoks := rest.takeWhile isBufTok
       let atoks := rest.dropWhile isBufTok
-      let bufs ← (btoks.zipIdx).mapM fun (t, i) => if big then parseBufBig? i t else parseBuf? i t
+      -- long ops: the contents are parsed first (address = alignment), then the buffers are laid out `spacing` apart
+      let bufs ← (btoks.zipIdx).mapM fun (t, i) => if big then parseBufBig? 0 i t else parseBuf? i t
       let bufs := bufs.toArray
+      let longest := bufs.foldl (fun mx b => max mx (b.addr + b.data.size)) 0
+      let spacing := if longWriters.contains fn then FBIG * ((longest + 64) / FBIG + 1) else BIG
+      let bufs := if big then bufs.mapIdx fun i b => { b with addr := spacing * (i + 1) + b.addr } else bufs
       let args ← atoks.mapM (parseArg? bufs)
-      pure (if big then runOpLong fn bufs args else runOp fn bufs args)
+      pure (if big then runOpLong spacing fn bufs args else runOp fn bufs args)
   | _ => none
 
 def stepLine (_ : Unit) (line : String) : Unit × String :=
   let r : Option String :=
     match words line with
     | ["reset"] => some "ok"
-    | ["plat"] => some ("long=" ++ toString BLOCK_SZ ++ " char=signed")
-    | ["plat2"] => some (String.intercalate " " ((platNames.zip platConsts).map fun (n, v) => n ++ "=" ++ toString v))
+    -- round 3b: only what the property depends on is compared (CHAR_BIT; the width of `int` and the ASCII
+    -- codes); sizeof(long), sizeof(size_t), memcpy.c's BLOCK_SZ and the signedness of char are tags of the harness
+    | ["plat"] => some "char_bit=8"
+    | ["plat2"] => some (String.intercalate " " (((platNames.zip platConsts).drop 2).map fun (n, v) => n ++ "=" ++ toString v))
     | ["cttab", name, _] => cttab name
     | ["ctype", c] => if c.startsWith "#" then (c.drop 1).toString.toInt?.map ctypeLine else none
     | "premain" :: _ :: "cttab" :: name :: _ => cttab name
